@@ -296,7 +296,9 @@ pub fn violations(info: &ScopeInfo) -> Vec<(String, String)> {
     for o in info.occs.iter().filter(|o| o.kind == OccKind::Use) {
         let defined = info.occs.iter().any(|d| d.kind == OccKind::Def && d.name == o.name && d.pos < o.pos);
         if !defined {
-            out.push(("use-before-definition".to_string(), format!("variable {} used as {} at offset {} has no earlier definition", o.name, o.what, o.pos)));
+            // the operand of `fail` is a class of its own (known finding K11 of C23: never validated)
+            let kind = if o.what == "fail operand" { "use-before-definition:fail-operand" } else { "use-before-definition" };
+            out.push((kind.to_string(), format!("variable {} used as {} at offset {} has no earlier definition", o.name, o.what, o.pos)));
         }
     }
     for (name, pos, enclosed) in &info.nexts {
@@ -304,5 +306,7 @@ pub fn violations(info: &ScopeInfo) -> Vec<(String, String)> {
             out.push(("next-outside-fold".to_string(), format!("next {} at offset {} is not inside a fold with that iterator", name, pos)));
         }
     }
+    // the known class last: it must not hide another violation of the same script
+    out.sort_by_key(|(k, _)| k.ends_with(":fail-operand"));
     out
 }
